@@ -425,6 +425,15 @@ def main(tier):
         section_fluor(ck, st, L, mac, Zs, edges, AV, tier, rng)
         section_dcs(ck, st, L, Zs, knots, edges, ks, AV, tier, rng)
         st.info['pairs@' + config] = int(len(ZZ))
+    # ---- the aggregates are functions of their arguments alone: same bits in another call order, with immediate repetition, without an
+    # error slot, and in a host that traps floating-point exceptions (every Z incl. those without data, where a part fails) ------------
+    Zi, Ei, Ti = [x.ravel() for x in np.meshgrid(np.arange(0, 122), [0.5, 10.0, 100.0, 900.0], [0.0, 0.7, float(np.pi)], indexing='ij')]
+    Z2, E2 = [x.ravel() for x in np.meshgrid(np.arange(0, 122), [0.5, 10.0, 100.0, 900.0], indexing='ij')]
+    jobs = [(f, Zi, Ei, Ti) for f in ('DCS_Rayl', 'DCS_Compt', 'DCSb_Rayl', 'DCSb_Compt')] + \
+           [(f, Zi, Ei, Ti, 0.3 + 0 * Ti) for f in ('DCSP_Rayl', 'DCSP_Compt', 'DCSPb_Rayl', 'DCSPb_Compt')] + \
+           [(f, Z2, E2) for f in ('CS_Total', 'CSb_Total', 'CSb_Photo', 'CSb_Rayl', 'CSb_Compt')]
+    st.calls += execlib.independence(ck, 'c05', 'shipped', jobs, orders=('given', 'reversed', 'each-twice'))
+    st.calls += execlib.independence(ck, 'c05', 'kissel', [(f, Z2, E2) for f in ('CS_Total_Kissel', 'CSb_Total_Kissel', 'CS_Photo_Total', 'CSb_Photo_Total')], orders=('given', 'each-twice'))
     # ---- did the run observe enough? ------------------------------------------------------------------------------
     need_shipped = ['CS_Total', 'CSb_Total', 'CSb_Photo', 'CSb_Rayl', 'CSb_Compt', 'CSb_FluorLine', 'CSb_FluorShell', 'DCS_Rayl', 'DCS_Compt',
                     'DCSP_Rayl', 'DCSP_Compt', 'DCSb_Rayl', 'DCSb_Compt', 'DCSPb_Rayl', 'DCSPb_Compt']
